@@ -36,4 +36,4 @@ def run(ck):
     ck.floor("R02.4", "send() prologue scenarios", n[0], 256)
     ck.floor("R02", "send() outcome scenarios", n[1], 4)
     ck.floor("R02.6", "resend() paths", n[2], 8)
-    ck.floor("R02.7", "pipe-number test sites", n[3], 5)
+    ck.floor("R02.7", "pipe-number test sites", n[3], 2)
